@@ -259,7 +259,7 @@ theorem matchedStep_P {cfg : Cfg} {startT : Option Tree} {sn : Option (Option Na
                 · simp at hl; exact Or.inl hl.symm
                 · simp at hl
           · simp at hl
-        · simp at heq
+        · split at heq <;> simp at heq
         · split at heq
           · rename_i e' hn
             simp only [Prod.mk.injEq, Step.raise.injEq] at heq
@@ -451,7 +451,7 @@ theorem blockMatch_P {f : F} (hf : FP e0 f) {fuel : Nat} {cfg : Cfg} {s : St} {e
     simp only at heq
     have le : LogExt s2 (enterState tn s2) := by
       unfold enterState; split
-      · exact LogExt.trans ⟨[Ev.enter _], rfl⟩ (ghostIf_log _ _ _)
+      · exact LogExt.trans ((ghostIf_log _ _ _).trans ⟨[Ev.enter _], rfl⟩) (ghostIf_log _ _ _)
       · exact LogExt.refl _
     have l2L : LogExt (enterState tn s2) sL := by
       have := blockLoop_rel (L env) hf.log cfg (blockClasses env cfg) startT sn fuel 0
@@ -516,9 +516,10 @@ theorem main0Match_P {f : F} (hf : FP e0 f) {fuel : Nat} {cfg : Cfg} {scope : Na
   have lall : LogExt s s' := by
     have := main0Match_rel (L env) hf.log fuel cfg scope s; rw [heq] at this; exact this
   unfold main0Match at heq
-  generalize hb : blockMatch env f fuel cfg (s.enter scope) = br at heq
+  generalize hb : blockMatch env f fuel cfg ((ghostIf (s.sym.clashes scope) Ghost.nameClash s).enter scope) = br at heq
   obtain ⟨r0, s2⟩ := br
-  have le : LogExt s (s.enter scope) := ⟨[Ev.enter scope], rfl⟩
+  have le : LogExt s ((ghostIf (s.sym.clashes scope) Ghost.nameClash s).enter scope) :=
+    (ghostIf_log _ _ _).trans ⟨[Ev.enter scope], rfl⟩
   have hex : ∀ b s3, s2.exit = (b, s3) → LogExt s2 s3 := by
     intro b s3 h; exact ⟨[Ev.exit], by have := St.exit_log s2; rw [h] at this; simpa using this⟩
   have hrm : ∀ s3 b s4, s3.remove scope = (b, s4) → LogExt s3 s4 := by
